@@ -123,6 +123,12 @@ impl AuthorizationHandlerWrapper {
     fn new(inner: ffi::AuthorizationHandler) -> Self {
         Self { inner }
     }
+
+    /// A role with an interior NUL cannot be represented as a C string, and truncating
+    /// it there would present a different role to the application.
+    fn role_to_cstring(role: &str) -> Option<std::ffi::CString> {
+        std::ffi::CString::new(role).ok()
+    }
 }
 
 #[cfg(feature = "enable-tls")]
@@ -133,9 +139,11 @@ impl AuthorizationHandler for AuthorizationHandlerWrapper {
         range: rodbus::AddressRange,
         role: &str,
     ) -> Authorization {
-        let role = unsafe { &std::ffi::CString::from_vec_unchecked(role.into()) };
+        let Some(role) = Self::role_to_cstring(role) else {
+            return Authorization::Deny;
+        };
         self.inner
-            .read_coils(unit_id.value, range.into(), role)
+            .read_coils(unit_id.value, range.into(), &role)
             .map(|result| result.into())
             .unwrap_or(Authorization::Deny)
     }
@@ -146,9 +154,11 @@ impl AuthorizationHandler for AuthorizationHandlerWrapper {
         range: rodbus::AddressRange,
         role: &str,
     ) -> Authorization {
-        let role = unsafe { &std::ffi::CString::from_vec_unchecked(role.into()) };
+        let Some(role) = Self::role_to_cstring(role) else {
+            return Authorization::Deny;
+        };
         self.inner
-            .read_discrete_inputs(unit_id.value, range.into(), role)
+            .read_discrete_inputs(unit_id.value, range.into(), &role)
             .map(|result| result.into())
             .unwrap_or(Authorization::Deny)
     }
@@ -159,9 +169,11 @@ impl AuthorizationHandler for AuthorizationHandlerWrapper {
         range: rodbus::AddressRange,
         role: &str,
     ) -> Authorization {
-        let role = unsafe { &std::ffi::CString::from_vec_unchecked(role.into()) };
+        let Some(role) = Self::role_to_cstring(role) else {
+            return Authorization::Deny;
+        };
         self.inner
-            .read_holding_registers(unit_id.value, range.into(), role)
+            .read_holding_registers(unit_id.value, range.into(), &role)
             .map(|result| result.into())
             .unwrap_or(Authorization::Deny)
     }
@@ -172,25 +184,31 @@ impl AuthorizationHandler for AuthorizationHandlerWrapper {
         range: rodbus::AddressRange,
         role: &str,
     ) -> Authorization {
-        let role = unsafe { &std::ffi::CString::from_vec_unchecked(role.into()) };
+        let Some(role) = Self::role_to_cstring(role) else {
+            return Authorization::Deny;
+        };
         self.inner
-            .read_input_registers(unit_id.value, range.into(), role)
+            .read_input_registers(unit_id.value, range.into(), &role)
             .map(|result| result.into())
             .unwrap_or(Authorization::Deny)
     }
 
     fn write_single_coil(&self, unit_id: UnitId, idx: u16, role: &str) -> Authorization {
-        let role = unsafe { &std::ffi::CString::from_vec_unchecked(role.into()) };
+        let Some(role) = Self::role_to_cstring(role) else {
+            return Authorization::Deny;
+        };
         self.inner
-            .write_single_coil(unit_id.value, idx, role)
+            .write_single_coil(unit_id.value, idx, &role)
             .map(|result| result.into())
             .unwrap_or(Authorization::Deny)
     }
 
     fn write_single_register(&self, unit_id: UnitId, idx: u16, role: &str) -> Authorization {
-        let role = unsafe { &std::ffi::CString::from_vec_unchecked(role.into()) };
+        let Some(role) = Self::role_to_cstring(role) else {
+            return Authorization::Deny;
+        };
         self.inner
-            .write_single_register(unit_id.value, idx, role)
+            .write_single_register(unit_id.value, idx, &role)
             .map(|result| result.into())
             .unwrap_or(Authorization::Deny)
     }
@@ -201,9 +219,11 @@ impl AuthorizationHandler for AuthorizationHandlerWrapper {
         range: rodbus::AddressRange,
         role: &str,
     ) -> Authorization {
-        let role = unsafe { &std::ffi::CString::from_vec_unchecked(role.into()) };
+        let Some(role) = Self::role_to_cstring(role) else {
+            return Authorization::Deny;
+        };
         self.inner
-            .write_multiple_coils(unit_id.value, range.into(), role)
+            .write_multiple_coils(unit_id.value, range.into(), &role)
             .map(|result| result.into())
             .unwrap_or(Authorization::Deny)
     }
@@ -214,9 +234,11 @@ impl AuthorizationHandler for AuthorizationHandlerWrapper {
         range: rodbus::AddressRange,
         role: &str,
     ) -> Authorization {
-        let role = unsafe { &std::ffi::CString::from_vec_unchecked(role.into()) };
+        let Some(role) = Self::role_to_cstring(role) else {
+            return Authorization::Deny;
+        };
         self.inner
-            .write_multiple_registers(unit_id.value, range.into(), role)
+            .write_multiple_registers(unit_id.value, range.into(), &role)
             .map(|result| result.into())
             .unwrap_or(Authorization::Deny)
     }
